@@ -57,7 +57,7 @@ def addCov (cov : List String) (tags : List String) : List String :=
   tags.foldl (fun c t => if c.contains t then c else c ++ [t]) cov
 
 /-- One C17 case on one model variant: `lines` are (lineNo, text) of the case body. -/
-def runCase17V (lines : Array (Nat × String)) (fixReap fixAck fixRetx fixQuiet : Bool) : CaseResult := Id.run do
+def runCase17V (lines : Array (Nat × String)) (fixReap fixAck fixRetx fixQuiet fixFw2 : Bool) : CaseResult := Id.run do
   let mut res : CaseResult := {}
   let mut w : R17.World := {}
   let mut g : O17.G := {}
@@ -69,7 +69,7 @@ def runCase17V (lines : Array (Nat × String)) (fixReap fixAck fixRetx fixQuiet 
   for (ln, l) in lines do
     if l.startsWith "CFG" then
       let hs := parseHosts l
-      let fab := hs.foldl (fun f a => f.addHost a fixReap fixAck fixRetx fixQuiet) {}
+      let fab := hs.foldl (fun f a => f.addHost a fixReap fixAck fixRetx fixQuiet fixFw2) {}
       -- `eph=<lo>-<hi>`: ephemeral range shrunk through the verification hook
       let eph := (l.splitOn " ").findSome? fun t =>
         match t.splitOn "=" with
@@ -133,27 +133,35 @@ def runCase17V (lines : Array (Nat × String)) (fixReap fixAck fixRetx fixQuiet 
     res := { res with pattern := "F-C17-1" }
   return res
 
-/-- Correspondence accepts the code as it was (faithful) or any combination of the repairs
+/-- Correspondence accepts the committed tree (all repairs, tried first), the code as it was
+    (faithful) or any other combination of the repairs
     (F-C17-1 orphan reaping, ACK of unacceptable SYN/FIN, retransmit counters reset at the end of
     the handshake, quiet abort in LastAck/Closing); first match wins, the verdict of the faithful run is reported if none fits. -/
-def runCase17 (lines : Array (Nat × String)) : CaseResult × String := Id.run do
-  let r0 := runCase17V lines false false false false
-  if r0.kOk then return (r0, "faithful")
+def runCase17 (lines : Array (Nat × String)) (only : Option String := none) : CaseResult × String := Id.run do
+  -- debugging aid: TV_NETTABLE_VARIANT=abcde (five 0/1 flags reap,ack,retx,quiet,fw2) forces one variant
+  if let some v := only then
+    let b := fun (i : Nat) => (v.toList.getD i '0') == '1'
+    return (runCase17V lines (b 0) (b 1) (b 2) (b 3) (b 4), "forced:" ++ v)
+  -- the committed tree first (all repairs), then the code as found, then the intermediate trees
+  let rc := runCase17V lines true true true true true
+  if rc.kOk then return (rc, "fixed")
   -- the variants differ only in TCP behaviour: nothing to retry without TCP traffic
   let hasTcp := lines.any fun (_, l) =>
     l.startsWith "OP " && ((l.splitOn " ").getD 2 "" |> fun o => o == "tconnect" || o == "tconnectcancel" ||
       o == "injectsyn" || o == "injectrst")
-  if !hasTcp then return (r0, "-")
-  let variants : List (Bool × Bool × Bool × Bool × String) :=
-    [(true, true, true, true, "fixed"), (true, true, true, false, "fixed:reap+ack+retx"),
-     (true, false, false, false, "fixed:reap"), (false, true, false, false, "fixed:ack"),
-     (false, false, true, false, "fixed:retx"), (false, false, false, true, "fixed:quiet"),
-     (true, true, false, false, "fixed:reap+ack"), (true, false, true, false, "fixed:reap+retx"),
-     (false, true, true, false, "fixed:ack+retx")]
-  for (a, b, c, d, name) in variants do
-    let r := runCase17V lines a b c d
+  if !hasTcp then return (rc, "-")
+  let variants : List (Bool × Bool × Bool × Bool × Bool × String) :=
+    [(false, false, false, false, false, "faithful"),
+     (true, true, true, true, false, "fixed:pre-fw2timeout"), (true, true, true, false, false, "fixed:reap+ack+retx"),
+     (true, false, false, false, false, "fixed:reap"), (false, true, false, false, false, "fixed:ack"),
+     (false, false, true, false, false, "fixed:retx"), (false, false, false, true, false, "fixed:quiet"),
+     (false, false, false, false, true, "fixed:fw2timeout"),
+     (true, true, false, false, false, "fixed:reap+ack"), (true, false, true, false, false, "fixed:reap+retx"),
+     (false, true, true, false, false, "fixed:ack+retx")]
+  for (a, b, c, d, e, name) in variants do
+    let r := runCase17V lines a b c d e
     if r.kOk then return (r, name)
-  return (r0, "-")
+  return (rc, "-")
 
 def parseOp19 (t : List String) : Option R19.Op :=
   match t with
@@ -305,6 +313,7 @@ partial def main (args : List String) : IO UInt32 := do
   match args with
   | [prop, file] =>
     let lines ← IO.FS.lines file
+    let forced ← IO.getEnv "TV_NETTABLE_VARIANT"
     let mut i := 0
     let mut cases := 0
     let mut km := 0
@@ -320,7 +329,7 @@ partial def main (args : List String) : IO UInt32 := do
         while j < lines.size && lines[j]! != "END" do
           body := body.push (j + 1, lines[j]!)
           j := j + 1
-        let (r, variant) := if prop == "C17" then runCase17 body else (runCase19 body, "faithful")
+        let (r, variant) := if prop == "C17" then runCase17 body forced else (runCase19 body, "faithful")
         cases := cases + 1
         if !r.kOk then km := km + 1
         if !r.oFails.isEmpty then ofl := ofl + 1
